@@ -42,6 +42,38 @@ def closure_return(prog, sc, clnode, elem):
     return strip(csc._rw(rns[0][1])) if len(rns) == 1 else None
 
 
+def check_override_passthrough(ctx, rule, prog, ep, props_adt, field, table, ofield):
+    """<props_adt>.<field> of EnergyProps is the user's override as written: and_then(get(model.overrides.<table>, element id), |o| o.<ofield>), with nothing
+    that selects among its values on the way (a filter on the value silently ignores some overrides)"""
+    root = Scope(prog, ep)
+    lits = [(sc, sc.rvalue(s_["rv"]), s_.get("ln")) for sc in root.all_scopes() for b, i, s_ in sc.body.statements()
+            if s_["s"] == "assign" and s_["rv"]["r"] == "agg" and s_["rv"].get("adt", "").endswith("props::" + props_adt)]
+    ctx.require(len(lits) == 1, "%s literal not found in EnergyProps::from" % props_adt)
+    sc, n, ln = lits[0]
+    fl = dict(zip(n[2], n[3]))
+    v = strip(fl[field])
+    key = "%s|%s.%s" % (rule, props_adt, field)
+    SELECTING = ("filter", "take_if", "xor", "zip", "and", "or", "or_else", "map", "unwrap_or", "unwrap_or_default", "unwrap_or_else", "min", "max", "clamp")
+    outer = []
+    cur = v
+    while cur[0] == "call" and short_callee(cur[1]) in SELECTING and cur[2]:
+        outer.append(short_callee(cur[1]))
+        cur = strip(cur[2][0])
+    okshape = cur[0] == "call" and short_callee(cur[1]) == "and_then" and len(cur[2]) == 2 and strip(cur[2][0])[0] == "call" and short_callee(strip(cur[2][0])[1]) == "get" \
+        and (leaf_name(strip(strip(cur[2][0])[2][0])) or "").endswith("overrides." + table)
+    if not okshape:
+        raise AnalysisError("%s.%s is %s: not a lookup of model.overrides.%s" % (props_adt, field, show(v)[:100], table))
+    r = closure_return(prog, sc, cur[2][1], ("elem", "O", ()))
+    rname = leaf_name(r) if r is not None else None
+    if outer:
+        ctx.violation(rule, key, "the user's %s override goes through %s before it is used: some of the values a user can give are dropped or altered (%s)"
+                      % (ofield, "/".join(reversed(outer)), show(v)[:120]), ep.loc(ln))
+    elif rname != "O[]." + ofield and rname != "O." + ofield:
+        ctx.violation(rule, key, "%s.%s is taken from %s of the override entry, expected its %s" % (props_adt, field, rname or show(r)[:60], ofield), ep.loc(ln))
+    else:
+        ctx.ok(rule, key, "%s.%s = overrides.%s[id].%s, unchanged" % (props_adt, field, table, ofield), ep.loc(ln))
+
+
 def minmax_shape(prog, sc, term, fn_, uname, dest):
     """dest = dest.map(|v| v.<fn_>(U)).or(Some(U))"""
     from ..exprs import mkproj
@@ -97,6 +129,8 @@ def winprops_inherit(ctx, prog):
 def run(ctx):
     prog = ctx.prog
     f = prog.method("energy::indicators::k::KData", "convert::From", "from")
+    from ..loops import check_no_early_exit
+    check_no_early_exit(ctx, "c08.loop", prog, f, "K")
     root = Scope(prog, f)
     bt = [v["name"] for v in prog.adt("bemodel::types::common::BoundaryType")["variants"]]
     tilts = [v["name"] for v in prog.adt("bemodel::types::common::Tilt")["variants"]]
@@ -277,6 +311,8 @@ def run(ctx):
             ctx.violation("c08.total", key, "u_mean of %s is not au/a guarded by its own area" % c, f.loc())
     # provenance in EnergyProps::from
     ep = prog.method("energy::props::EnergyProps", "convert::From", "from")
+    check_override_passthrough(ctx, "c08.chain", prog, ep, "WallProps", "u_value_override", "walls", "u_value")
+    check_override_passthrough(ctx, "c08.chain", prog, ep, "WinProps", "u_value_override", "windows", "u_value")
     esc = Scope(prog, ep)
     wl = [(sc, sc.rvalue(s["rv"]), s.get("ln")) for sc in esc.all_scopes() for b, i, s in sc.body.statements()
           if s["s"] == "assign" and s["rv"]["r"] == "agg" and s["rv"].get("adt", "").endswith("props::WallProps")]
